@@ -333,6 +333,28 @@ class Prop:
     def in_known_class(self, kf, c, obs, why):
         return False
 
+    def shrink(self, c, why):
+        """drop operations while the implementation still fails the Spec oracle"""
+        if c.get('kind') == 'ref':
+            return c
+        import re
+        m = re.match(r'step (\d+):', why or '')
+        cur = dict(c)
+        if m:
+            cur['ops'] = c['ops'][:int(m.group(1)) + 1]
+        for _ in range(40):
+            cands = [dict(cur, ops=cur['ops'][:i] + cur['ops'][i + 1:]) for i in range(len(cur['ops']))]
+            if not cands:
+                break
+            obs, err = self.run_impl(cands, 'quick')
+            if obs is None:
+                break
+            nxt = next((cd for cd, o in zip(cands, obs) if self.oracle(cd, o)), None)
+            if nxt is None:
+                break
+            cur = nxt
+        return cur
+
     def nontrivial_key(self, c, obs):
         if c.get('kind') == 'ref':
             return ('ref', json.dumps(c['reqs'])) if obs != [-1] and len(obs) >= 2 else None
